@@ -254,8 +254,19 @@ fn perform(thread: &RootedThread, op: &Value, id: &str, concurrent: bool, chan: 
         "recv" => {
             let Some(chan) = chan else { return "nop".to_string() };
             let mut out = Vec::new();
+            let work = op["work"].as_u64().unwrap_or(0);
+            let src = if work > 0 {
+                // the received value lives in the heap of the channel's owner; after the recv it is
+                // referenced from this thread's stack only, for the whole loop
+                format!(
+                    "let ch = import! std.channel.prim\nlet io = import! std.io.prim\nlet array = import! std.array.prim\nlet {{ Result }} = import! std.types\nrec let loop r acc a = if r #Int< 1 then acc else loop (r #Int- 1) (acc #Int+ array.len a #Int+ array.index a 0) a\nlet work x =\n    match x with\n    | Ok a -> if (loop {} 0 a) #Int< 0 then Err () else Ok a\n    | Err e -> Err e\n\\r -> io.flat_map (\\x -> io.wrap (work x)) (ch.recv r)\n",
+                    work
+                )
+            } else {
+                RECV_SRC.to_string()
+            };
             for j in 0..op["n"].as_u64().unwrap_or(1) {
-                out.push(call_io(thread, &format!("r_{}_{}", id, j), RECV_SRC, &chan.receiver, concurrent));
+                out.push(call_io(thread, &format!("r_{}_{}", id, j), &src, &chan.receiver, concurrent));
             }
             format!("RECV {}", out.join(" | "))
         }
@@ -368,14 +379,48 @@ impl Engine for C14 {
             }
             threads.push(json!({ "gthread": if t == 0 && rng.chance(1, 2) { "root" } else { "child" }, "ops": ops }));
         }
+        // a scenario of its own in 1 of 6 runs: the root thread runs and collects while children
+        // are inside long calls whose argument lives in the root's heap
+        let root_scenario = rng.chance(1, 6);
+        if root_scenario {
+            threads[0]["gthread"] = json!("root");
+            {
+                let ops = threads[0]["ops"].as_array_mut().unwrap();
+                let at = rng.below(ops.len() + 1);
+                ops.insert(at, json!({ "op": "collect" }));
+                if rng.chance(1, 2) {
+                    ops.push(json!({ "op": "collect" }));
+                }
+            }
+            for th in threads.iter_mut().skip(1) {
+                if rng.chance(2, 3) {
+                    let ops = th["ops"].as_array_mut().unwrap();
+                    let at = rng.below(ops.len() + 1);
+                    ops.insert(at, json!({ "op": "rootarg", "n": 2 + rng.below(40), "rounds": *rng.pick(&[100u64, 400, 1500]) }));
+                }
+            }
+        }
         // channel traffic: one channel created by the root thread, its two ends handed to every
         // logical thread; sends deep-clone the value into the root thread's heap from whichever OS
         // thread runs the sender
-        let channel = rng.chance(1, 2);
+        let channel = rng.chance(1, 2) || root_scenario;
+        let mut prefill: Vec<Value> = Vec::new();
+        if root_scenario {
+            // values already queued in the root's heap; children receive them and keep working on
+            // them: after the recv only the child's stack refers to the value
+            for k in 0..2 + rng.below(4) {
+                prefill.push(json!([99, k as u64 + 1, rng.below(1000) as u64]));
+            }
+            for th in threads.iter_mut().skip(1) {
+                let ops = th["ops"].as_array_mut().unwrap();
+                let at = rng.below(ops.len() + 1);
+                ops.insert(at, json!({ "op": "recv", "n": 1 + rng.below(2), "work": *rng.pick(&[50u64, 300, 1200]) }));
+            }
+        }
         if channel {
             // with the root thread itself running, its collections deadlock against children using
             // the channel (recorded finding): most channel runs keep the root idle
-            if rng.chance(2, 3) {
+            if !root_scenario && rng.chance(2, 3) {
                 for th in threads.iter_mut() {
                     th["gthread"] = json!("child");
                 }
@@ -419,6 +464,7 @@ impl Engine for C14 {
             "class": if parallel { "parallel-imports" } else if channel { "serial-imports+channel" } else { "serial-imports" },
             "prelude": false,
             "channel": channel,
+            "prefill": prefill,
             "modules": modules,
             "threads": threads,
             "gc": GcPolicy::generate(rng).to_json(),
@@ -471,6 +517,18 @@ impl Engine for C14 {
         gluon_vm::verif::reset_heap_ids();
         let vm = build_vm(w)?;
         let chan = if w["channel"].as_bool().unwrap_or(false) { Some(Arc::new(make_channel(&vm)?)) } else { None };
+        let mut prefilled: Vec<String> = Vec::new();
+        if let Some(chan) = &chan {
+            for (k, v) in w["prefill"].as_array().unwrap_or(&empty).iter().enumerate() {
+                let src = format!("let ch = import! std.channel.prim\n\\s -> ch.send s {}\n", v);
+                let out = call_io(&vm, &format!("prefill_{}", k), &src, &chan.sender, false);
+                if !out.starts_with("OK <1") {
+                    return Err(Violation::new("harness", format!("prefilling the channel gave `{}`", out)));
+                }
+                let a: Vec<String> = v.as_array().unwrap_or(&empty).iter().map(|x| x.to_string()).collect();
+                prefilled.push(format!("[{}]", a.join(", ")));
+            }
+        }
         run::with(|s| s.ticks.clear());
         sched::reset(w["switch_rate"].as_u64().unwrap_or(100) as u32);
         let parallel = w["class"].as_str() == Some("parallel-imports");
@@ -572,7 +630,7 @@ impl Engine for C14 {
         if let Some(chan) = &chan {
             // every sent value is delivered exactly once; values of one sender arrive in sending
             // order at any one receiver; an empty channel answers `Err ()` instead of blocking
-            let mut sent: Vec<String> = Vec::new();
+            let mut sent: Vec<String> = prefilled.clone();
             for (t, th) in threads.iter().enumerate() {
                 for (k, op) in th["ops"].as_array().unwrap_or(&empty).iter().enumerate() {
                     if op["op"].as_str() == Some("send") {
